@@ -109,7 +109,33 @@ def replay_errors(model, cls="SinglePhaseReservoir", which="length", length=None
     return True, {"what": f"{which}: accepted without an error"}
 
 
+def replay_interp_buildup(model):
+    """Real run with a frac-face schedule that is drawn down and then raised again (a shut-in): recovery rises and then
+    FALLS, so 'the final recovery' is neither the largest value nor anything else but the last one."""
+    import numpy as np
+    r = _real("SinglePhaseReservoir", 20)
+    t = np.linspace(0, 1.2, 25) ** 2
+    sched = np.concatenate([np.full(12, 1500.0), np.full(13, 7600.0)])
+    r.simulate(t, pressure_fracface=sched)
+    rf = np.asarray(r.recovery_factor(), float)
+    f = r.recovery_factor_interpolator()
+    problems = []
+    for k in range(len(t)):
+        if abs(float(f(t[k])) - rf[k]) > 1e-12 * (1 + abs(rf[k])):
+            problems.append(f"interpolator({t[k]!r}) = {float(f(t[k]))!r} vs recovery[{k}] = {rf[k]!r}")
+            break
+    if float(f(t[0] - 1.0)) != 0.0:
+        problems.append(f"before the first time: {float(f(t[0] - 1.0))!r}")
+    if float(f(t[-1] + 1.0)) != rf[-1]:
+        problems.append(f"after the last time: {float(f(t[-1] + 1.0))!r} vs the final recovery {rf[-1]!r} (recovery peaked at {rf.max()!r} before the shut-in)")
+    return bool(problems), {"what": "drawdown followed by a build-up: " + ("; ".join(problems) or "interpolator reproduces recovery, 0 before, final value after"), "inputs": {}}
+
+
 def replay_interp(model, cls="SinglePhaseReservoir", nx=4, nt=3, rerun=None):
+    if cls != "IdealReservoir" and not rerun:
+        bad, det = replay_interp_buildup(model)
+        if bad:
+            return bad, det
     import numpy as np
     t = np.cumsum([float(model.get("t0") or 0.0)] + [float(model.get(f"dt{k}") or 0.01 * k) for k in range(1, nt)])
     if not rerun and model.get("t0") is None:
@@ -312,7 +338,7 @@ def job_interp(job, cls, nx, nt, rerun=None):
 
 
 # concrete replays run on the real code when the changed code uses something the engine does not model (harness.finish)
-FALLBACK = [(replay_shift, {}), (replay_shift, {"cls": "IdealReservoir"}), (replay_schedule, {}), (replay_interp, {}), (replay_interp, {"rerun": ["recovery_factor_interpolator"]}), (replay_errors, {}), (replay_errors, {"length": 1}), (replay_errors, {"which": "rf"}), (replay_errors, {"which": "interp"})]
+FALLBACK = [(replay_interp_buildup, {}), (replay_shift, {}), (replay_shift, {"cls": "IdealReservoir"}), (replay_schedule, {}), (replay_interp, {}), (replay_interp, {"rerun": ["recovery_factor_interpolator"]}), (replay_errors, {}), (replay_errors, {"length": 1}), (replay_errors, {"which": "rf"}), (replay_errors, {"which": "interp"})]
 
 
 def jobs(tier):
